@@ -340,6 +340,7 @@ func checkC10(e *core.Env) {
 		kind := Kind(r.Intn(4))
 		sc := genDeliveryScript(r, kind, true, false)
 		sc.ReqMD = metadata.MD{"token": {"v1"}, "multi": {"a", "b"}}
+		sc.NoAppendedMD = true // the caller's one map is what gets written to below
 		run := inner.Svc.NewRun(sc, "inproc")
 		var seen metadata.MD
 		run.OnHandler = func(hctx context.Context, rr *Run, _ grpc.ServerStream) {
@@ -403,6 +404,7 @@ func checkC10OpenMutation(e *core.Env) {
 		kind := Kind(1 + r.Intn(3))
 		sc := genDeliveryScript(r, kind, true, false)
 		sc.ReqMD = metadata.MD{"token": {"v1"}, "multi": {"a", "b"}}
+		sc.NoAppendedMD = true // the caller's one map is what gets written to below
 		run := inner.Svc.NewRun(sc, "inproc")
 		var seen metadata.MD
 		run.OnHandler = func(hctx context.Context, rr *Run, _ grpc.ServerStream) {
